@@ -115,6 +115,7 @@ v('c19-f25-reverted', 'C19', 'C19/error-types-and-curry', 'assert-invoke', ('rog
 v('c03-f26-reverted', 'C03', 'C03/template-positions-matched-by-index', 'candidate-accept', ('rogw/tranp/semantics/reflection/helper/template.py', "			if diff >= 0 and DSN.left(actual_elems, schema_counts) != schema_elems:\n				continue\n", ""))
 v('c09-f27-reverted', 'C09', 'C09/one-result-per-node', 'exec-stack-popped-on-failure', ('rogw/tranp/semantics/procedure.py', "		try:\n			return self.__exec_impl(root)\n		finally:\n			# 実行に失敗した場合もスタックを破棄する。残したままにすると、呼び出し元(入れ子の実行元)が失敗した実行の結果を参照してしまう\n			self.__stacks.pop()\n", "		result = self.__exec_impl(root)\n		self.__stacks.pop()\n		return result\n"))
 v('c11-f29-reverted', 'C11', 'C11/full-consumption', 'tokenizer-boundary', ('rogw/tranp/implements/syntax/tranp/syntax.py', "		try:\n			tokens = self.tokenizer.parse(source)\n		except Exception as e:", "		tokens = self.tokenizer.parse(source)\n		try:\n			pass\n		except Exception as e:"))
+v('c17-f30-reverted', 'C17', 'C17/literal-decoding', 'cast-arity', ('rogw/tranp/implements/transpiler/evaluator.py', "		if len(arguments) != 1:\n			raise Errors.OperationNotAllowed(node, calls, arguments)\n\n", ""))
 # ---- C14 / C15 ----
 v('c14-key-renamed', 'C14', 'C14/record-keys-agree', 'Reflection', ('rogw/tranp/semantics/reflection/serializer.py', "				'origin': symbol.types.fullyname,", "				'org': symbol.types.fullyname,"))
 v('c14-via-from-origin', 'C14', 'C14/field-wiring', 'Options.via', ('rogw/tranp/semantics/reflection/serializer.py', "via = db[data['via']] if data['origin'] != data['via'] else None", "via = db[data['origin']] if data['origin'] != data['via'] else None"))
